@@ -646,6 +646,28 @@ func runC09(cx *CheckCtx) {
 			}
 		}
 	}
+	// partial debits (burn, transfer out of a lock account) keep Until/Parent: the debit store of
+	// Token.transfer is the loaded record with only Balance changed
+	if tfn := cx.pkgFunc("contracts/balance", "Token.transfer"); tfn != nil {
+		c := cx.contract("balance")
+		rootM := &Method{C: c, ABI: "Token.transfer", GoName: "Token.transfer", Fn: tfn, NParams: len(tfn.Params)}
+		ra := cx.run(rootM)
+		tb := ra.tb
+		tc := &transferCall{a: ra, m: rootM, frame: tb.root, from: paramTerm(tb, rootM, "from"), to: paramTerm(tb, rootM, "to"),
+			amt: paramTerm(tb, rootM, "amount"), details: paramTerm(tb, rootM, "details")}
+		sortTransferEffects(tc)
+		ok := false
+		where := w.pos(tfn.Pos())
+		if tc.debitPut != nil {
+			where = tc.debitPut.Where(w)
+			v := unserialize(ra.canonAt(tc.debitPut, tc.debitPut.Args[2]))
+			if X := recOfStruct(tb, v); X != nil {
+				k, isRec := recordOf(tb, X)
+				ok = isRec && k == tb.cat(tb.constBytes("a"), tc.from) && tb.field(v, "Parent") == tb.field(X, "Parent") && tb.field(v, "Until") == tb.field(X, "Until")
+			}
+		}
+		cx.decide(ok, "lock-record", "balance.Token.transfer/debit-preserves", "a partial debit stores the loaded record with Until/Parent unchanged", "a partial debit (burn, transfer) of a lock account does not keep its Until/Parent: the remainder is never released at expiry", where)
+	}
 	// ---- D2: NewEpoch refund
 	if m := cx.method("balance", "NewEpoch"); m != nil {
 		a := cx.run(m)
